@@ -107,6 +107,23 @@ func probe(recv string, ttl int, ks []int, words []uint32, fail func(key, msg st
 		return
 	}
 	_ = sock.SetOption(mangos.OptionRecvDeadline, 4*time.Second)
+	_ = sock.SetOption(mangos.OptionSendDeadline, 4*time.Second)
+	// raw reply sockets hand the routing header to the application, which returns it with its answer
+	rawRoute := recv == "xrep" || recv == "xrespondent"
+	recvOne := func() (hdr, body []byte, err error) {
+		if !rawRoute {
+			body, err = sock.Recv()
+			return nil, body, err
+		}
+		m, err := sock.RecvMsg()
+		if err != nil {
+			return nil, nil, err
+		}
+		hdr, body = append([]byte(nil), m.Header...), append([]byte(nil), m.Body...)
+		m.Free()
+		return hdr, body, nil
+	}
+	nsent := 0 // answers transmitted so far on the peer's connection
 	for i, k := range ks {
 		if family(recv) != "route" && k > 256 {
 			continue
@@ -122,7 +139,7 @@ func probe(recv string, ttl int, ks []int, words []uint32, fail func(key, msg st
 			done <- ok
 		}()
 		want := shouldDeliver(recv, ttl, k)
-		got, err := sock.Recv()
+		hdr, got, err := recvOne()
 		if err != nil {
 			fail("sentinel-lost", fmt.Sprintf("%s ttl=%d: nothing received after probe k=%d + in-limit sentinel: %v", recv, ttl, k, err))
 			<-done
@@ -131,7 +148,34 @@ func probe(recv string, ttl int, ks []int, words []uint32, fail func(key, msg st
 		delivered := false
 		if bytes.Equal(got, body) {
 			delivered = true
-			got, err = sock.Recv()
+			if family(recv) == "route" {
+				// the answer must go back on the connection the request came from, behind exactly the k
+				// routing words the request carried, however many they are
+				reply := []byte("re:" + string(body))
+				n := nsent
+				nsent++
+				var serr error
+				if rawRoute {
+					m := mangos.NewMessage(len(reply))
+					m.Header = append(m.Header, hdr...)
+					m.Body = append(m.Body, reply...)
+					serr = sock.SendMsg(m)
+				} else {
+					serr = sock.Send(reply)
+				}
+				wantWire := append(append([]byte(nil), pm[:4*k]...), reply...)
+				switch {
+				case serr != nil:
+					fail("reply-error:"+recv, fmt.Sprintf("%s ttl=%d: answering a request that crossed %d connections failed: %v", recv, ttl, k, serr))
+				case !p.WaitSent(n+1, 3*time.Second):
+					fail("reply-lost:"+recv, fmt.Sprintf("%s ttl=%d: the answer to a delivered request that crossed %d connections was not transmitted on the connection it came from", recv, ttl, k))
+				case !bytes.Equal(p.SentLog()[n].Data, wantWire):
+					fail("reply-bytes:"+recv, fmt.Sprintf("%s ttl=%d k=%d: the answer went out as %x, want the request's %d routing words then the body: %x", recv, ttl, k, trunc(p.SentLog()[n].Data), k, trunc(wantWire)))
+				default:
+					stats.Class("reply_routed_back:" + recv)
+				}
+			}
+			_, got, err = recvOne()
 			if err != nil || !bytes.Equal(got, sent) {
 				fail("sentinel-lost", fmt.Sprintf("%s ttl=%d: after delivering probe k=%d the sentinel did not follow: (%q,%v)", recv, ttl, k, got, err))
 				<-done
@@ -154,6 +198,11 @@ func probe(recv string, ttl int, ks []int, words []uint32, fail func(key, msg st
 		// cooked sockets answer on the same path; make rep/respondent ready for the next request
 		if recv == "rep" || recv == "respondent" {
 			_ = sock.Send([]byte("ack"))
+			nsent++
+			if !p.WaitSent(nsent, 3*time.Second) {
+				fail("reply-lost:"+recv, fmt.Sprintf("%s ttl=%d: the answer to the in-limit sentinel was not transmitted", recv, ttl))
+				return
+			}
 		}
 		stats.Eval()
 		bnd := k == ttl || k == ttl+1
